@@ -320,6 +320,26 @@ class Module:
                 if x not in out: out.append(x)
         return out
 
+    def annotated(self):
+        """every field reachable from the root message that carries a yara field option other than
+        `name` / `ignore`: (root-relative path of YARA names, options)"""
+        out = []
+        def walk(full, prefix, stack):
+            kind, m, _, _f = self.types[full]
+            for fd in m["fields"]:
+                fo = fd["options"].get("yara.field_options", {})
+                if not isinstance(fo, dict): continue
+                if fo.get("ignore"): continue
+                name = self.yara_field_name(fd)
+                opts = [k for k in ("lowercase", "fmt", "acl", "deprecation_notice") if k in fo and fo[k] not in (False, None)]
+                if opts: out.append((prefix + [name], opts))
+                if fd["type"] not in SCALARS:
+                    r = self.resolve(fd["type"], full)
+                    if r is not None and self.types[r][0] == "message" and r not in stack:
+                        walk(r, prefix + [name], stack + [r])
+        walk(self.root_full, [], [self.root_full])
+        return out
+
     def enum_items(self):
         items = []
         for full, (kind, e, encl, ef) in self.types.items():
@@ -375,10 +395,15 @@ def main():
         L.append(f"Definition schema_{cid} : ty :=\n  {schema}.")
         for what, lst in (("acl", m.acl), ("lowercase", m.lower), ("fmt", m.fmt), ("deprecated", m.deprecated)):
             L.append(f"Definition {what}_fields_{cid} : list string := [" + "; ".join(f'"{x}"' for x in lst) + "].")
+        L.append("(* fields with a yara option other than name/ignore: (path of YARA names from the root, options) *)")
+        L.append(f"Definition annotated_{cid} : list (list string * list string) := [" + "; ".join(
+            "([" + "; ".join(f'"{x}"' for x in path) + "], [" + "; ".join(f'"{o}"' for o in opts) + "])" for path, opts in m.annotated()) + "].")
         L.append(f"Definition enum_items_{cid} : list (string * Z) := [" + "; ".join(
             f'("{n}", {("(" + str(v) + ")") if v < 0 else v}%Z)' for n, v in m.enum_items()) + "].")
         L.append("")
         entries.append((m.name, cid))
+    L.append("Definition proto_annotated : list (string * list (list string * list string)) :=\n  [" + ";\n   ".join(
+        f'("{n}", annotated_{c})' for n, c in entries) + "].")
     L.append("Definition proto_schemas : list (string * (list string * ty)) :=\n  [" + ";\n   ".join(
         f'("{n}", (names_{c}, schema_{c}))' for n, c in entries) + "].")
     L.append("")
